@@ -317,8 +317,11 @@ def sanitizer_leg(drv, merged, kind, sub, seed, shards, cases, extra=None, timeo
         ex = dict(extra or {})
         if kind == "miri":
             # the interpreter is about four orders of magnitude slower: none of the big scenarios
-            for k in ("wide_cases", "long_cases", "big_cases", "big_files", "long_streams"):
+            for k in ("wide_cases", "long_cases", "big_cases", "big_files", "long_streams", "tall", "tall_cases",
+                      "big_roundtrips", "big_cli_cases"):
                 ex.setdefault(k, 0)
+            # (the complete small scopes run natively in every run; 260 ADFs x 15 pipelines would take hours here)
+            ex.setdefault("no_exhaustive", 1)
         for k, v in ex.items():
             args += ["--" + k, str(v)]
         if kind == "miri":
@@ -370,7 +373,7 @@ SANITIZER_PLAN = {
             ("asan", "c05", 4, 200, {"nmax": 5})],
     "C06": [("miri", "c06", 6, 2, {}), ("asan", "c06", 8, 400, {})],
     "C07": [("miri", "c07", 4, 1, {}), ("asan", "c07", 8, 400, {})],
-    "C18": [("miri", "c18", 8, 10, {}), ("asan", "c18", 8, 5000, {})],
+    "C18": [("miri", "c18", 8, 10, {"no_exhaustive": 0}), ("asan", "c18", 8, 5000, {})],
     "C19": [("miri", "c19", 8, 1, {"threaded": 2}), ("tsan", "c19", 8, 30, {"threaded": 300}),
             ("asan", "c19", 4, 30, {"threaded": 100})],
     "C20": [("miri", "c20", 2, 2, {"exhaustive_len": 3, "prefix_take": 20})],
